@@ -100,7 +100,7 @@ package peer
 
 //@ func (*Peer).handleReady
 //@   property C21 C22
-//@   requires p != nil && p.storage != nil && p.node != nil
+//@   requires p != nil
 //@   ghost lastReadyFailed = result != nil
 //@   ensures [entries-persisted-before-apply] peerApplyCalls > old(peerApplyCalls) && len(rd.Entries) > 0 ==> applySawAppends > old(readyAppends)
 //@   ensures [one-apply-call-per-ready] peerApplyCalls <= old(peerApplyCalls) + 1 && peerApplyCalls >= old(peerApplyCalls)
